@@ -14,6 +14,7 @@
 //   size <id> <props>                          properties_output_size                    -> ok <n>
 //   dist <id> <name> <x> <y> <z> <depth>       distance_to_plane                         -> ok 2 <from> <along>
 //   tags <id>                                  feature_tags                              -> ok <n> <tag|tag|…>
+#include <cstdio>
 #include <cstdint>
 #include <cstring>
 #include <fstream>
@@ -115,6 +116,8 @@ int main()
                   else if (tok == "nocull") nocull = true;
                 }
               std::vector<Verif::SurfaceDump> sink;
+              // a stale dump of an earlier world under the same name must not survive a construction that throws (the driver would read it as this world's)
+              if (!auxfile.empty()) std::remove(auxfile.c_str());
               Verif::surface_sink() = auxfile.empty() ? nullptr : &sink;
               Verif::inflate_culling_bounds() = nocull;
               std::unique_ptr<World> w;
